@@ -448,6 +448,9 @@ impl Engine {
         if (100..=115).contains(&opc) {
             return self.guard_op(opc, r, out);
         }
+        if opc == 23 {
+            return self.layout_probe(out);
+        }
         if opc == 22 {
             // drop every container
             self.eb = (0..4).map(|_| EntityBuilder::new()).collect();
@@ -879,6 +882,62 @@ impl Engine {
         obs
     }
 
+    /// opcode 23: archetype capacities (read off the tracked allocation behind the entity-id array)
+    /// plus the layout oracle: every component reference is aligned, lies with its whole column
+    /// inside one live allocation, and rows are laid out at the element stride
+    fn layout_probe(&mut self, out: &mut Out) -> Vec<u64> {
+        let mut obs = Vec::new();
+        for w in 0..2 {
+            if !self.live(w) {
+                obs.push(7);
+                continue;
+            }
+            let world = self.worlds[w].as_ref().unwrap();
+            obs.push(5);
+            obs.push(world.archetypes().len() as u64);
+            for a in world.archetypes() {
+                let p = a.ids().as_ptr() as usize;
+                let cap = crate::alloc_track::block_of(p, 4).map_or(0, |(s, sz)| if s == p { sz / 4 } else { 0 });
+                obs.push(cap as u64);
+                if (a.len() as usize) > cap {
+                    out.flag(format!("C04: archetype holds {} entities but its id array has room for {cap}", a.len()));
+                }
+                for t in 0..NTYPES as u64 {
+                    with_comp!(t, C, {
+                        if let Some(col) = a.get::<&C>() {
+                            let size = std::mem::size_of::<C>();
+                            let align = std::mem::align_of::<C>();
+                            let base = col.as_ptr() as usize;
+                            if base % align != 0 {
+                                out.flag(format!("C04: column of type {t} starts at misaligned address {base:#x}"));
+                            }
+                            for (i, c) in col.iter().enumerate() {
+                                let addr = c as *const C as usize;
+                                if addr != base + i * size {
+                                    out.flag(format!("C04: row {i} of column {t} is not at base + i * size"));
+                                }
+                            }
+                            if size > 0 && !col.is_empty() {
+                                match crate::alloc_track::block_of(base, size * col.len()) {
+                                    None => out.flag(format!("C04: column of type {t} ({} rows) does not lie inside one live allocation", col.len())),
+                                    Some((s, sz)) => {
+                                        if s != base || sz != size * cap {
+                                            out.flag(format!("C04: column of type {t}: allocation of {sz} bytes at offset {} for capacity {cap} x {size}", base - s));
+                                        }
+                                    }
+                                }
+                            }
+                        }
+                    });
+                }
+            }
+        }
+        for v in crate::alloc_track::take_violations() {
+            out.flag(format!("C04: allocator contract: {v}"));
+        }
+        obs
+    }
+
     fn probe(&mut self, hs: &[Entity], obs: &mut Vec<u64>, out: &mut Out) {
         for w in 0..2 {
             if !self.live(w) {
@@ -1041,6 +1100,7 @@ fn run_script(args: &[u64], out: &mut Out) -> Canon {
     let mut r = Rd { a: args, p: 0 };
     drain_drops();
     reset_clone_serial();
+    crate::alloc_track::enable(true);
     let mut eng = Engine::new();
     let mut canon: Canon = (Vec::new(), Vec::new());
     while !r.done() {
@@ -1091,6 +1151,11 @@ fn run_script(args: &[u64], out: &mut Out) -> Canon {
     let d = drain_drops();
     eng.ledger.dropped(&d, &sizes, out);
     eng.ledger.finish(out);
+    drop(eng);
+    for v in crate::alloc_track::take_violations() {
+        out.flag(format!("C04: allocator contract: {v}"));
+    }
+    crate::alloc_track::enable(false);
     canon
 }
 
